@@ -320,7 +320,7 @@ def tbl25_decoder_validates_what_the_applier_assumes(ctx):
     must come back as an error from `EventBuffer::deserialize_reader`."""
     ctx.rule('TBL-25', 'EventBuffer::deserialize_reader refuses messages whose columns are longer than the table or '
                        'whose sparse row indices are out of order / out of range (the applier assumes both and runs '
-                       'after the request has been written to the log)', floor=3)
+                       'after the request has been written to the log)', floor=4)
     P = ctx.P
     F = P.one('event_buffer::EventBuffer::deserialize_reader')
     F.parse()
@@ -371,6 +371,59 @@ def tbl25_decoder_validates_what_the_applier_assumes(ctx):
                                                              'go into the EventBuffer unchecked: indices out of order or beyond the '
                                                              'table length underflow `i - next_i` in the applier after the request was logged'),
                   where(t))
+    # (c) the embedded path: ingest_efficient runs the same validation before it logs the request and
+    # before it takes the ingestion lock (an EventBuffer can also be built by hand - TableBuffer::new
+    # takes the number of entries of a sparse column for the row count)
+    validators = set()
+    for (B, blk, t) in idx_calls:
+        dB = DefUse(B)
+        fwB = dB.forward(base_local(t.dest))
+        for (b2, t2) in B.calls():
+            if b2.cleanup or not t2.args or not any(base_local(a) in fwB for a in t2.args):
+                continue
+            ty = B.local_type(base_local(t2.dest)) or ''
+            if 'result::Result<()' in ty.replace(' ', ''):
+                for hb in P.resolve(t2.func, B.crate):
+                    validators.add(hb.name)
+    ING = P.one('InnerLocustDB::ingest_efficient')
+    ING.parse()
+    icfg = CFG(ING)
+    vsites = []
+    for (blk, t) in ING.calls():
+        if blk.cleanup or not t.func:
+            continue
+        for cb in list(P.resolve(t.func, ING.crate)) + list(P.closures_in_text(t.func)):
+            if validators & set(P.reachable_bodies([cb])) or cb.name in validators:
+                vsites.append(blk.id)
+    firsts = [blk.id for (blk, t) in ING.calls() if not blk.cleanup and
+              (re.search(r'Mutex::<[^>]*>::lock$|Mutex::lock$', norm_callee(t.func or '')) or
+               norm_callee(t.func or '').endswith('thread::spawn') or 'std::thread::spawn' in norm_callee(t.func or ''))]
+    # the validation usually sits in a loop over the tables of the request: the loop (its header) has to
+    # come before the lock / the log writer on every path
+    loops = {h: icfg.natural_loop(h) for h in icfg.loop_headers()}
+    anchors = set(vsites)
+    for v in vsites:
+        hs = [h for h, lp in loops.items() if v in lp]
+        if hs:
+            h = max(hs, key=lambda x: len(loops[x]))
+            anchors.add(('loop', h))
+    def before(fb):
+        for a in anchors:
+            if isinstance(a, tuple):
+                h = a[1]
+                if fb not in loops[h] and icfg.dominates(h, fb):
+                    return True
+            elif a != fb and icfg.dominates(a, fb):
+                return True
+        return False
+    okc = bool(vsites) and bool(firsts) and all(before(fb) for fb in firsts)
+    ctx.check('TBL-25', 'ingest_efficient|validated-before-log-and-lock', okc,
+              'the embedded ingestion path %s' % ('runs the decoder\'s validation before it takes the ingestion lock and before '
+                                                  'the request is handed to the log writer' if okc else
+                                                  'does not validate a hand-built EventBuffer before logging it: TableBuffer::new with only '
+                                                  'sparse columns takes the entry count for the row count, the request is logged, '
+                                                  'ingestion panics, and the database cannot be opened again'),
+              where(ING.blocks[0].term))
     # (b) column length against table length
     F = F0
     du = DefUse(F)
